@@ -28,6 +28,7 @@ let string_of_event = function
   | ECmd Wait -> "wait" | ECmd IsRunning -> "isrunning" | ECmd StepNumber -> "stepnumber"
   | EQRun b -> if b then "isrun1" else "isrun0"
   | EQStep k -> Printf.sprintf "stepno%d" (int_of_nat k)
+  | ERc b -> if b then "rc1" else "rc0"
 
 let starts s p = String.length s >= String.length p && String.sub s 0 (String.length p) = p
 let num_after s p = int_of_string (String.sub s (String.length p) (String.length s - String.length p))
@@ -39,6 +40,7 @@ let event_of_string s =
   | "run" -> Some (ECmd Run) | "reset" -> Some (ECmd Reset) | "reboot" -> Some (ECmd Reboot)
   | "teardown" -> Some (ECmd Teardown) | "wait" -> Some (ECmd Wait)
   | "isrun1" -> Some (EQRun true) | "isrun0" -> Some (EQRun false)
+  | "rc1" -> Some (ERc true) | "rc0" -> Some (ERc false)
   | _ ->
       if starts s "stepno" then Some (EQStep (nat_of_int (num_after s "stepno")))
       else if starts s "step" then Some (EStep (nat_of_int (num_after s "step")))
@@ -90,7 +92,7 @@ let diagnose (tr : event list) : string list =
           match s with
           | EInit :: _ -> "init-after-exit"
           | EStep _ :: t -> if runreq t then "step-number-out-of-sequence" else "step-before-run"
-          | EExit :: _ -> "exit-without-epoch"
+          | EExit :: t -> if exit_cause t then "exit-without-epoch" else "exit-without-teardown-or-false-run-condition"
           | EQRun _ :: _ -> "running-after-exit-without-run"
           | _ -> "unknown"
       in
@@ -110,6 +112,8 @@ let run_cases impl =
              init w
          in
          let fin = finish cfg in
+         let at_end = (match cfg.c_pc with PHeld -> thread_token true cfg | _ -> cfg) in
+         Caseio.out_word "end_loc" [ loc_of_pc at_end.c_pc ];
          Caseio.out_word "obs" (List.rev !observations);
          Caseio.out_word "trace" ("|" :: List.map string_of_event (List.rev fin.c_trace));
          Caseio.out_int "exited" (b2i (fin.c_pc = PExited));
@@ -135,7 +139,7 @@ let run_cases impl =
 (* ---- exhaustive enumeration over enabled tokens ---- *)
 let gen tag maxlen maxcmds maxf prefix =
   let states = Hashtbl.create 1024 and trans = Hashtbl.create 4096 in
-  let key c = (c.c_pc, c.c_run, c.c_rst, c.c_td, int_of_nat c.c_step, c.c_woken) in
+  let key c = (c.c_pc, c.c_run, c.c_rst, c.c_td, int_of_nat c.c_step, c.c_woken, c.c_mid) in
   let n = ref 0 in
   let buf = Buffer.create (1 lsl 20) in
   let enabled c =
